@@ -148,6 +148,15 @@ func genC11(t *rapid.T, th bool) *c11Plan {
 	}
 	c.Faults = gf("fault")
 	c.Cfg.AsyncNotify = rapid.Bool().Draw(t, "async")
+	// a configured context that is cancelled while items are pending or in flight
+	if rapid.IntRange(0, 3).Draw(t, "withctx") == 0 {
+		c.Cfg.Ctx = true
+		var ctrl []Op
+		for i := 0; i < rapid.IntRange(0, 4).Draw(t, "yields"); i++ {
+			ctrl = append(ctrl, Op{Op: "yield"})
+		}
+		c.Clients[0] = append(ctrl, Op{Op: "cancelctx"})
+	}
 	rs := genSched(t, pf, th)
 	c.RecSched = &rs
 	c.RecFaults = gf("recfault")
